@@ -1,0 +1,18 @@
+//go:build verif
+
+// Contracts for the verification machinery in /verif (comment-only; no code).
+
+package x509
+
+// two keys compare equal exactly when algorithm and key bytes are equal
+//@ func EqualPublicKeys
+//@   requires a != nil && b != nil
+//@   pure
+//@   ensures ret <==> (a.Algorithm == b.Algorithm && seq(a.Data) == seq(b.Data))
+//@
+//@ // ASN.1 encoding: not modelled (the round trip is outside this technique's reach, see DESIGN.md C17)
+//@ func MarshalPublicKey
+//@   trusted
+//@   assumeframe
+//@   requires x != nil
+//@   ensures true
